@@ -570,3 +570,168 @@ def wire_problems(sc, mt, wire):
     if pos[0] != len(payload):
         probs.append('field at payload offset %d is neither a header, body nor trailer field in sequence' % pos[0])
     return probs
+
+
+# ------------------------------------------------------------------------------------------------
+# C04: independent recogniser of "schema-conforming message" on raw bytes, and the token list it is made of
+
+CANON_INT = re.compile(rb'-?(0|[1-9]\d*)')
+
+
+def conformance(sc, raw):
+    """returns (problems, tokens, classes): problems = why the byte string is not a schema-conforming message (empty = conforming);
+    tokens = [(section, path, tag, value)] in wire order when tokenisable; classes = finding classes this input falls into"""
+    probs, classes = [], set()
+    bs = sc['beginstr']
+    toks = []
+    # --- frame
+    m = re.compile(rb'(\d*)=([^\x01]*)\x01(\d*)=([^\x01]*)\x01(\d*)=([^\x01]*)\x01').match(raw)
+    if not m:
+        return ['no BeginString/BodyLength/MsgType preamble'], [], classes
+    t8, v8, t9, v9, t35, mt = m.groups()
+    if t8 != b'8' or t9 != b'9' or t35 != b'35':
+        probs.append('preamble tags are %r %r %r' % (t8, t9, t35))
+        classes.add('preamble-lenient')
+    if v8 != bs:
+        probs.append('BeginString %r is not %r' % (v8, bs))
+        classes.add('preamble-lenient')
+    if len(raw) < m.end() + 7 or raw[-7:-4] != b'10=' or raw[-1:] != b'\x01':
+        if len(raw) >= 7 and raw[-7:-5] == b'10':
+            classes.add('trailer-lenient')      # only the two characters "10" are looked at, seven bytes from the end
+        return probs + ['no CheckSum field at the end'], [], classes
+    if not re.fullmatch(rb'\d{3}', raw[-4:-1]) or int(raw[-4:-1]) != sum(raw[:-7]) % 256:
+        probs.append('CheckSum wrong')
+    if not CANON_INT.fullmatch(v9) or int(v9) != len(raw) - 7 - m.start(5):
+        probs.append('BodyLength does not match')       # not verified by the factory (the socket reader frames by it): class
+        classes.add('bodylength-unchecked')
+    msg = [x for x in sc['msgs'] if x[0] == mt]
+    if not msg:
+        return probs + ['unknown MsgType %r' % mt], [], classes
+    body_tr = msg[0][1]
+    payload = raw[m.start(5):-7]        # from the MsgType field on
+    pos = [0]
+    toks += [('H', (), 8, v8), ('H', (), 9, v9)]
+
+    def next_token(by, prev):
+        mm = re.compile(rb'(\d*)=').match(payload, pos[0])
+        if not mm:
+            return None
+        tagb = mm.group(1)
+        if not tagb or (len(tagb) > 1 and tagb[0:1] == b'0'):
+            return ('bad', tagb)
+        tag = int(tagb)
+        start = mm.end()
+        tr = by.get(tag)
+        if tr is not None and kind(sc, tr[1]) == 'data' and prev is not None and prev[0] + 1 == tag and CANON_INT.fullmatch(prev[1]) and int(prev[1]) >= 0:
+            n = int(prev[1])
+            if payload[start + n:start + n + 1] != b'\x01':
+                return ('bad', tagb)
+            return tag, payload[start:start + n], start + n + 1
+        e = payload.find(b'\x01', start)
+        if e < 0:
+            return None
+        return tag, payload[start:e], e + 1
+
+    def section(traits, name, path, preset=(), sec=None):
+        sec = sec or name[0].upper()
+        by = {t[0]: t for t in traits}
+        seen, prev = set(preset), None
+        while pos[0] < len(payload):
+            tk = next_token(by, prev)
+            if tk is None or tk[0] == 'bad':
+                break
+            tag, val, end = tk
+            if tag >= 65536:
+                classes.add('tag-alias')
+            if tag not in by:
+                break
+            if tag in seen:
+                if path:
+                    break                       # next element of the enclosing group
+                probs.append('%s field %d repeats' % (name, tag))
+                if by[tag][3] & F_AUTO:
+                    classes.add('automatic-duplicate')
+                pos[0] = end
+                continue
+            tr = by[tag]
+            seen.add(tag)
+            pos[0] = end
+            prev = (tag, val)
+            toks.append((sec, path, tag, val))
+            k = kind(sc, tr[1])
+            if (k in ('int', 'length') and not CANON_INT.fullmatch(val)) or (k == 'char' and len(val) != 1) or (k == 'bool' and val not in (b'Y', b'N')) \
+                    or (k == 'float' and not re.fullmatch(rb'-?\d+(\.\d+)?', val)) \
+                    or (k == 'timestamp' and not re.fullmatch(rb'\d{8}-\d\d:\d\d:\d\d(\.\d{3})?', val)) \
+                    or (k == 'timeOnly' and not re.fullmatch(rb'\d\d:\d\d:\d\d(\.\d{3})?', val)) \
+                    or (k == 'dateOnly' and not re.fullmatch(rb'\d{8}', val)) or (k == 'monthYear' and not re.fullmatch(rb'\d{6}(\d\d)?', val)):
+                classes.add('value-text-not-validated')
+            if b'\x00' in val:
+                classes.add('nul-in-value')
+            if tr[3] & F_GROUP and CANON_INT.fullmatch(val) and int(val) > 0:
+                g = sc['groups'][tr[4]]
+                first = min(g, key=lambda t: t[2])[0]
+                n = 0
+                while pos[0] < len(payload):
+                    mm = re.compile(rb'(\d+)=').match(payload, pos[0])
+                    if not mm:
+                        break
+                    nt = int(mm.group(1))
+                    if nt != first:
+                        if nt in {t[0] for t in g}:
+                            probs.append('group %d: element does not begin with field %d' % (tag, first))
+                            n += 1
+                            section(g, 'group', path + ((tag, n),), sec=sec)
+                            continue
+                        break
+                    n += 1
+                    section(g, 'group', path + ((tag, n),), sec=sec)
+                if n != int(val):
+                    classes.add('count-mismatch')
+                prev = None
+        missing = [t[0] for t in traits if t[3] & F_MAND and t[0] not in seen]
+        if missing:
+            probs.append('%s: mandatory field(s) %s missing' % (name, missing))
+
+    # MsgType is the first payload token
+    section(sc['header'], 'header', (), preset=(8, 9))
+    section(body_tr, 'body', ())
+    section(sc['trailer'], 'trailer', (), preset=(10,))
+    if pos[0] != len(payload):
+        probs.append('field at payload offset %d is not valid where it appears' % pos[0])
+        classes.add('invalid-tag-accepted')
+    toks.append(('T', (), 10, raw[-4:-1]))
+    return probs, toks, classes
+
+
+def flatten_dump(d):
+    """parsed dump -> [(section, path, tag, printed value)] in order"""
+    out = []
+
+    def walk(sec, items, path):
+        for tag, val, elems in items:
+            out.append((sec, path, tag, val))
+            if elems:
+                for i, e in enumerate(elems, 1):
+                    walk(sec, e, path + ((tag, i),))
+    for sec in 'HBT':
+        walk(sec, d[sec][0], ())
+    return out
+
+
+def value_equiv(k, text, printed):
+    if printed == text:
+        return True
+    try:
+        if k in ('int', 'length') and CANON_INT.fullmatch(text) is None and re.fullmatch(rb'-?\d+', text):
+            return int(text) == int(printed)                 # leading zeros: same number
+        if k == 'float' and re.fullmatch(rb'-?\d+(\.\d+)?', text):
+            return abs(float(text) - float(printed)) < 5e-3
+        if k == 'timestamp' and len(text) == 17:
+            return printed == text + b'.000'
+        if k == 'timeOnly' and len(text) == 8:
+            return printed == text + b'.000'
+        if k == 'bool':
+            return text[:1].upper() == printed
+    except ValueError:
+        pass
+    return False
